@@ -60,6 +60,7 @@ package index
 // the elements are the ones that were there.
 //@ func sort.Sort
 //@   trusted
+//@   flag only_for=index.(*indexData).gatherMatches
 //@   ensures typeis(data, "sortByOffsetSlice") ==> (forall a, b int :: 0 <= a && a < b && b < len(as(data, "sortByOffsetSlice")) ==> !candLess(as(data, "sortByOffsetSlice")[b], as(data, "sortByOffsetSlice")[a]))
 //@   assigns anyelem("*candidateMatch")
 
